@@ -109,6 +109,17 @@ fn run_time(sc: &Value, clock: ClockId, tr: &mut Tracer) {
 				let am = arg as f64 / qf;
 				e["am"] = json!(arg);
 				let r = guarded(|| if op == "add_f" { base + am } else { base - am });
+				// the compound operator (+= / -=) must give what the binary one gives
+				let c = guarded(|| {
+					let mut c = base;
+					if op == "add_f" { c += am } else { c -= am }
+					c
+				});
+				e["ceq"] = json!(match (&r, &c) {
+					(Ok(r), Ok(c)) => r.ticks == c.ticks && r.fraction.to_bits() == c.fraction.to_bits(),
+					(Err(_), Err(_)) => true,
+					_ => false,
+				});
 				match r {
 					Ok(r) => {
 						proj(&r, q, "r", &mut e);
@@ -139,7 +150,18 @@ fn run_time(sc: &Value, clock: ClockId, tr: &mut Tracer) {
 			"add_u" | "sub_u" => {
 				let n = arg as u64;
 				e["n"] = json!(arg);
-				match guarded(|| if op == "add_u" { base + n } else { base - n }) {
+				let c = guarded(|| {
+					let mut c = base;
+					if op == "add_u" { c += n } else { c -= n }
+					c
+				});
+				let r0 = guarded(|| if op == "add_u" { base + n } else { base - n });
+				e["ceq"] = json!(match (&r0, &c) {
+					(Ok(r), Ok(c)) => r.ticks == c.ticks && r.fraction.to_bits() == c.fraction.to_bits(),
+					(Err(_), Err(_)) => true,
+					_ => false,
+				});
+				match r0 {
 					Ok(r) => proj(&r, q, "r", &mut e),
 					Err(msg) => {
 						e["p"] = json!(true);
@@ -271,11 +293,13 @@ fn run_map(sc: &Value, tr: &mut Tracer) {
 		geti("olo"),
 		geti("ohi"),
 	);
-	tr.reset(json!({"kind": "map", "ek": ek, "pw": pw, "g": g, "lo": lo, "hi": hi, "olo": olo, "ohi": ohi,
+	// desc: the input range is given from its upper end down to its lower end (hi maps to the start of the output range)
+	let desc = sc["desc"].as_bool().unwrap_or(false);
+	tr.reset(json!({"kind": "map", "ek": ek, "pw": pw, "g": g, "lo": lo, "hi": hi, "olo": olo, "ohi": ohi, "desc": desc,
 		"exact": sc["exact"].as_bool().unwrap_or(false)}));
 	let gf = g as f64;
 	let mapping = Mapping {
-		input_range: (lo as f64 / gf, hi as f64 / gf),
+		input_range: if desc { (hi as f64 / gf, lo as f64 / gf) } else { (lo as f64 / gf, hi as f64 / gf) },
 		output_range: (olo as f64 / 65536.0, ohi as f64 / 65536.0),
 		easing: easing_of(ek, pw),
 	};
